@@ -245,11 +245,11 @@ class kMinPathError(pathmodel.AbstractPathModelDAG):
             self.optimization_options["optimize_with_subpath_constraints_as_safe_sequences"] = True
             self.optimization_options["optimize_with_safety_as_subpath_constraints"] = True
 
-        self.w_max = self.k * self.weight_type(
-            self.G.get_max_flow_value_and_check_non_negative_flow(
-                flow_attr=self.flow_attr, edges_to_ignore=self.edges_to_ignore
-            )
+        max_flow_value = self.G.get_max_flow_value_and_check_non_negative_flow(
+            flow_attr=self.flow_attr, edges_to_ignore=self.edges_to_ignore
         )
+        # For integer weights the bound is rounded up: int() would truncate 2.9999999999999996 to 2 (and 0.9999999999999999 to 0)
+        self.w_max = self.k * (math.ceil(max_flow_value) if self.weight_type == int else float(max_flow_value))
         self.w_max = max(self.w_max, max(self.solution_weights_superset or [0]))
 
         self.path_length_ranges = path_length_ranges
